@@ -30,8 +30,8 @@
 (* identical canonical dumps.                                              *)
 (*                                                                         *)
 (* Model: three user variable files 1..3.  A file defines a subset of the  *)
-(* keys  gv = variable v in the global scope,  sv = v in the scope of      *)
-(* stage 0,  gw = variable w in the global scope (its "shape").  The value *)
+(* keys  gv = variable v in the global scope,  sv / sw = v / w in the scope *)
+(* of stage 0, gw = variable w in the global scope (its "shape").  The value *)
 (* file f gives to key k is the opaque string "f<f>.<k>".  The package     *)
 (* itself defines v and w globally ("pkg.v", "pkg.w") and has components   *)
 (* in stage 0 and stage 1 whose command lines are "%(v)s %(w)s".           *)
@@ -47,11 +47,11 @@ CONSTANTS Shapes,       \* the shapes a file may have: subset of ShapeNames
           Emit
 
 Files == 1..3
-Keys == {"gv", "sv", "gw"}
-ShapeNames == {"none", "gv", "sv", "gv+sv", "gw", "gv+gw", "sv+gw"}
+Keys == {"gv", "sv", "gw", "sw"}       \* sw = variable w in the scope of stage 0 (a second variable of the same stage)
+ShapeNames == {"none", "gv", "sv", "gv+sv", "gw", "gv+gw", "sv+gw", "sw", "sv+sw"}
 KeysOf(shape) == CASE shape = "none" -> {} [] shape = "gv" -> {"gv"} [] shape = "sv" -> {"sv"}
                    [] shape = "gv+sv" -> {"gv", "sv"} [] shape = "gw" -> {"gw"} [] shape = "gv+gw" -> {"gv", "gw"}
-                   [] shape = "sv+gw" -> {"sv", "gw"}
+                   [] shape = "sv+gw" -> {"sv", "gw"} [] shape = "sw" -> {"sw"} [] shape = "sv+sw" -> {"sv", "sw"}
 ASSUME Shapes \subseteq ShapeNames /\ "none" \in Shapes /\ MaxLen \in 1..4 /\ NumPres \in 1..8
 
 FName == <<"f1", "f2", "f3">>
@@ -94,7 +94,7 @@ Layered(k, ord) == IF Definers(k, ord) = {} THEN Undefined ELSE Val(ord[Max(Defi
 
 (* the value a component of a stage sees: stage scope over global scope over the package's own definition *)
 Effective(stage, var, ord) ==
-    LET s == IF stage = 0 /\ var = "v" THEN Layered("sv", ord) ELSE Undefined
+    LET s == IF stage = 0 THEN Layered(IF var = "v" THEN "sv" ELSE "sw", ord) ELSE Undefined
         g == Layered(IF var = "v" THEN "gv" ELSE "gw", ord)
     IN IF s # Undefined THEN s ELSE IF g # Undefined THEN g ELSE "pkg." \o var
 CommandLine(stage, ord) == Effective(stage, "v", ord) \o " " \o Effective(stage, "w", ord)
